@@ -137,7 +137,7 @@ def gen_lf_wait(wd):
 
 META = {
     "engine": "E5 symbolic scheduler",
-    "level_text": "SEVEN mechanisms of the property: the hand-off from reconstruction to the loop-filter stage (every row the stage reads is complete when its wait ends), the once-per-frame loop-filter table initialisation (no thread filters before the tables are complete), the per-superblock-row saving of loop-restoration stripe context (every stripe of the frame covered), and the row-to-row synchronisation of the multi-threaded reconstruction stage (decode_tile_row), of the loop-filter stage (dec_loop_filter_row), of the CDEF stage (svt_cdef_sb_row_mt) and of the loop-restoration stage (dec_av1_loop_restoration_filter_row). Their synchronisation statements (sliced verbatim; the spin-wait is turned into a non-blocking test) run under every schedule of one worker per superblock row, for pictures 1..4 superblocks wide and 3 rows high: a superblock is filtered only after the superblocks above and above-right were filtered, and a row whose upper row is complete is never blocked.",
+    "level_text": "The reconstruction wavefront is also run with the tile width computed by the real statement of decode_tile_row on frames whose last superblock is partial. SEVEN mechanisms of the property: the hand-off from reconstruction to the loop-filter stage (every row the stage reads is complete when its wait ends), the once-per-frame loop-filter table initialisation (no thread filters before the tables are complete), the per-superblock-row saving of loop-restoration stripe context (every stripe of the frame covered), and the row-to-row synchronisation of the multi-threaded reconstruction stage (decode_tile_row), of the loop-filter stage (dec_loop_filter_row), of the CDEF stage (svt_cdef_sb_row_mt) and of the loop-restoration stage (dec_av1_loop_restoration_filter_row). Their synchronisation statements (sliced verbatim; the spin-wait is turned into a non-blocking test) run under every schedule of one worker per superblock row, for pictures 1..4 superblocks wide and 3 rows high: a superblock is filtered only after the superblocks above and above-right were filtered, and a row whose upper row is complete is never blocked.",
     "level_note": "Everything else the property states is NOT decided: tile parse / loop-filter / loop-restoration hand-offs, stage-to-stage hand-offs, data races in general, hangs of the whole pipeline, equality with single-thread output (the decoder's job bodies cannot be executed symbolically; see DESIGN.md). Teardown after multi-threaded decoding is decided under C15, the mode-info map bounds under C10.",
     "technique": "CBMC bounded symbolic execution with a symbolic row schedule over verbatim slices of the synchronisation statements",
     "assumptions": ["cdef_completed_in_row is zeroed at the start of the frame (memset in svt_av1_queue_cdef_jobs)", "one thread works on a row from left to right (get_sb_row_to_process hands out whole rows)"],
